@@ -48,7 +48,7 @@ type lexStream struct{ n int }
 
 func (o *lexStream) Init(c *Ctx) {
 	if c.Tier == "quick" {
-		o.n = 5000
+		o.n = 20000
 	} else {
 		o.n = 150000
 	}
@@ -58,7 +58,7 @@ func (o *lexStream) Rule() string {
 	return "a case is one text (corpus window | generated | token-mutated | adversarial alphabet | NUL / invalid-UTF-8 / non-ASCII-space injection); inside the node EOF is injected at EVERY rune position of the text (exhaustive per text) and three passes run per prefix (Advance loop, sentinel pass, Parser.Read loop). evaluations counts node runs; prefixes counts (text, cut) pairs; distinct = distinct (last-token kind before the cut, injected fault) cells"
 }
 func (o *lexStream) ExpectedFaults() []string {
-	return []string{"eof-every-position", "nul-injected", "badutf8-injected", "unicode-space-injected"}
+	return []string{"eof-every-position", "nul-injected", "badutf8-injected", "unicode-space-injected", "line-endings-converted"}
 }
 
 var advAlphabets = []string{
@@ -72,6 +72,13 @@ var advAlphabets = []string{
 	"=begin=end \n",
 	"?!:;,^~*/ \n",
 	"def end class do | a ( ) \n",
+	"\\\r\n\t a1\"",
+	"\r\n#=a 'b\n",
+	"=begin\n=end x\n",
+	"_END_\n= ",
+	"\u00a0\u3000\u2028\ufeff a.\n",
+	"@$:?a1. \n",
+	"-+*/<>=!&|^~% 1a\n",
 }
 
 type lexPayload struct {
@@ -132,7 +139,12 @@ func (o *lexStream) Make(c *Ctx, i int) *Case {
 		}
 	}
 	cs.Faults = append(cs.Faults, "eof-every-position")
-	switch r.Intn(8) {
+	switch r.Intn(9) {
+	case 3:
+		if t, fired := ApplyFault("F7-crlf", text, nil, r); fired != "" {
+			text = t
+			cs.Faults = append(cs.Faults, "line-endings-converted")
+		}
 	case 0:
 		k := r.Intn(len(text) + 1)
 		text = append(append(append([]byte(nil), text[:k]...), 0), text[k:]...)
